@@ -277,5 +277,20 @@ func registerLib(e *Engine) {
 		e := Val{T: errorT, S: s.define("urlerr", sIface, ite(ok, "nilI", errv.S))}
 		return []Val{u, e}
 	}
+	L["os/exec.Command"] = func(s *State, site ssa.Instruction, args []Val) []Val {
+		s.used("os/exec.Command(name, args...): records argv = [name]+args verbatim (no shell); returns a fresh *Cmd with Stdin == nil")
+		sig := site.(ssa.CallInstruction).Common().Signature()
+		pt := sig.Results().At(0).Type()
+		cmd := s.allocObj(derefType(pt), pt)
+		s.ghost["exec_name"] = args[0]
+		s.ghost["exec_args"] = args[1]
+		s.ghost["exec_cmd"] = cmd
+		cnt := "0"
+		if v, ok := s.ghost["exec_count"]; ok {
+			cnt = v.S
+		}
+		s.ghost["exec_count"] = Val{T: intT, S: addT(cnt, "1")}
+		return []Val{cmd}
+	}
 	registerStrings(e)
 }
